@@ -11,16 +11,35 @@ CASE_START = ("init", "finit", "new", "icl")
 MANIFEST = dict(
     text="Lean 4 theorems (invariant over all conforming ACK/SACK histories, any initial sequence number, wrap-around "
          "included) over a code-shaped executable model of AckedRange / AckTracker::process_packet / process_sack / "
-         "cleanup_sacked_intervals / is_segment_acked, tied to the code by differential correspondence: the real "
-         "AckTracker is driven with real TCP packets carrying SACK options (API-built, wire-parsed, and through "
-         "TCPIP::Flow::process_packet with ACK tracking enabled) under ASan/UBSan, "
-         "its ack_number(), icl intervals and is_segment_acked on a grid around every interval edge, the ACK and the wrap "
-         "point are compared with the model, and the executable spec (set of acknowledged absolute byte positions) "
-         "judges the implementation's own output.",
-    note="Trusted: Lean kernel + standard axioms; boost::icl::interval_set<uint32_t> is a parameter (sorted list of closed "
-         "intervals with point-set semantics) validated only by correspondence; hand-written model tied by correspondence "
-         "(harness/c19_acktracker.cpp); generator coverage bounds what the tie sees.",
-    technique="Lean 4 proof (invariant/refinement over ACK histories) + model/impl correspondence + spec oracle",
+         "cleanup_sacked_intervals / is_segment_acked, composed with the byte-level model of TCP::TCP(buffer,size), "
+         "search_option(SACK) and to<sack_type>() of the Transport wire family into one statement from wire bytes to the "
+         "acknowledged set (ack_refines_wire: every conforming history, each packet put on the wire by an RFC 793 / RFC 2018 "
+         "reference encoder with any well-formed options around the SACK option, drives process_packet(TCP(bytes)) to the "
+         "state of the set-of-acknowledged-bytes model); the decoder facts (big-endian words, malformed_option exactly for "
+         "option lengths other than 2+4k and only after the cumulative ACK has been processed, a trailing odd edge ignored); "
+         "a safety part for ALL histories and ALL byte strings (no fault, only malformed_packet / malformed_option leave, "
+         "32-bit ACK, canonical interval list with 32-bit edges, is_segment_acked total with a point-wise meaning in every "
+         "state; the 'every stored point lies ahead of the ACK' invariant refuted in general by witnesses and proved for "
+         "every packet that neither jumps the ACK by exactly 2^31 nor carries a block straddling the ACK). Tied to the code "
+         "by differential correspondence: the real AckTracker is driven with real TCP packets carrying SACK options "
+         "(API-built, serialised and re-parsed, built by a C++ reference encoder whose bytes are compared with the Lean "
+         "encoder's and parsed with TCP(buffer,size), arbitrary mutated byte strings, and through TCPIP::Flow::process_packet "
+         "with ACK tracking enabled) under ASan/UBSan; its ack_number(), icl intervals and is_segment_acked on a grid around "
+         "every interval edge, the ACK and the wrap point are compared with the model, and the executable spec (set of "
+         "acknowledged absolute byte positions) judges the implementation's own output.",
+    note="Trusted: Lean kernel + standard axioms; boost::icl::interval_set<uint32_t> is a parameter whose assumed behaviour is "
+         "the explicit contract Ack/Icl.lean IclContract on exactly the operations the tracker uses (insert / erase / "
+         "contains of non-empty closed intervals, const iteration through icl::first / icl::last): canonical iteration "
+         "(ascending, non-empty, non-touching intervals) and point-set union / difference / subset. The contract is proved "
+         "complete (any implementation satisfying it is observationally the Lean list model: "
+         "interval_set_parameter_is_determined) and satisfiable (by the list model, whose canonical-form lemmas are proved); "
+         "that the real icl satisfies it is validated by correspondence only - a dedicated op stream on a real "
+         "interval_set<uint32_t> (insert closed / right-open, erase, operator-=, contains, iterative_size, cardinality; "
+         "intervals overlapping, nested, touching at either end, at 0 and at 2^32-1) compared with the list model and judged "
+         "point-wise by the oracle. Hand-written model tied by correspondence (harness/c19_acktracker.cpp); generator "
+         "coverage bounds what the tie sees.",
+    technique="Lean 4 proof (invariant/refinement over ACK histories, composed with the wire parser model) + model/impl "
+              "correspondence + spec oracle",
     design="DESIGN.md §6 C19")
 MANIFEST["note"] += (" Constants and limits of the C++ source that the model restates (translator/gen_limits.py -> Gen/Limits.lean: "
                      "compiled probe + preprocessed function bodies at named anchors) are tied to the model's numerals by the "
@@ -496,8 +515,12 @@ def run(chk):
             chk.violation("proof obligation no longer checks: " + p[:1500], ["theorem-or-audit-failure", p[:4000]], nofail=True)
     chk.cov["rule"] = ("cases = (initial ACK incl. wrap-point neighbourhood, history of ACK packets with <= 4 SACK blocks "
                        "emitted by a simulated RFC 2018 receiver for a random / exhaustive arrival order, ACK loss, "
-                       "queries around every interval edge / the ACK / the wrap point) + non-conforming traffic for the "
-                       "model/code tie; distinct_nontrivial counts distinct (op kind, tracker state) pairs with SACKed data "
+                       "queries around every interval edge / the ACK / the wrap point; ~30% of the packets go over the wire "
+                       "through the reference encoder with random options around the SACK option, now and then an END octet "
+                       "in front of it, an undecodable SACK option or a trailing odd edge) + non-conforming traffic (random "
+                       "edges, ref-encoded segments with several / hidden / truncated SACK options, mutated byte strings: "
+                       "truncation at any length, data offset, option kind / length octets, bit flips) for the model/code "
+                       "tie and the any-history clause + the icl op stream; distinct_nontrivial counts distinct (op kind, tracker state) pairs with SACKed data "
                        "or an answered query")
     chk.assumptions += [
         "conforming history: cumulative ACK non-decreasing, advancing < 2^31 per observed packet; SACK blocks non-empty, "
@@ -505,14 +528,33 @@ def run(chk):
         "queries (seq,len) are judged when the whole segment lies in the window (ACK - 2^31, ACK + 2^31) and len <= 2^31; "
         "outside it serial-number arithmetic has no meaning (Props.C19.segmentAckedAnyLength_fails: is_segment_acked(A, 2^31+1) "
         "answers true with nothing acknowledged) - such queries are compared model vs code only",
-        "boost::icl::interval_set<uint32_t> insert / erase / contains have point-set semantics and keep maximal intervals",
-        "SACK blocks that start at or below the ACK (non-conforming; the branch setting ack_number_ to the interval end) "
-        "are outside the property: compared model vs code only",
+        "boost::icl::interval_set<uint32_t> satisfies Ack/Icl.lean IclContract on the operations the tracker uses: "
+        "insert(closed) = point-set union, erase(closed) = point-set difference, contains(set, closed) = subset, iteration "
+        "= the maximal intervals in ascending order (touching intervals of the discrete domain are joined). Proved: the "
+        "contract determines every observation (interval_set_parameter_is_determined). Validated, not proved: that icl "
+        "meets it (icl op stream + point-wise oracle). Observed beside the contract: icl::cardinality is computed in the "
+        "domain type, the full set [0, 2^32-1] reports 0 (the tracker never asks)",
+        "non-conforming traffic is outside the refinement theorems but inside the safety theorems (wire_total_any_bytes, "
+        "sane_preserved_by_any_packet, is_segment_acked_any_state): SACK blocks that straddle the ACK (the branch assigning "
+        "ack_number_ = interval end, which erases nothing, may leave stored intervals behind the ACK and - across the wrap "
+        "point - moves the ACK number backwards: Props/C19 witnesses 1 and 3) and an ACK jumping by exactly 2^31 (nothing "
+        "erased: witness 2) are compared model vs code and judged by the any-history clause only",
+        "an odd number of SACK edges is not an error in libtins (only size % 4 is tested; process_sack never reads the "
+        "last edge: odd_edge_count_drops_last); a SACK option of length other than 2+4k makes process_packet throw "
+        "malformed_option after the cumulative ACK has been processed (wire_malformed_sack); Flow::process_packet catches it",
     ]
-    chk.trusted += ["correspondence harness harness/c19_acktracker.cpp + generators in checks/C19.py",
+    chk.trusted += ["correspondence harness harness/c19_acktracker.cpp (incl. its C++ reference encoder, compared byte for byte "
+                    "with Ack/Wire.lean refSegment on every segw line) + generators in checks/C19.py",
                     "g++ 12 / ASan+UBSan build of the repo's working tree", "boost::icl (system headers)"]
-    chk.extra["modelled_not_proved"] = ["TCP option parsing from wire bytes (pktw path) is exercised, not modelled: the "
-                                        "model starts at the decoded edge vector (decodeEdges models the uint32 converter)"]
+    chk.extra["modelled_not_proved"] = [
+        "the link / network layers in front of the TCP header on the pktw path (EthernetII / IP parsing and "
+        "find_pdu<TCP>) are exercised, not composed into ack_refines_wire: the theorem starts at TCP::TCP(buffer,size) "
+        "(their byte-level models and safety theorems are property C01's)",
+        "Flow::process_packet around the tracker (finit mode: update_state, the catch of malformed_option) is exercised "
+        "here and modelled in property C07, not in the C19 theorems",
+        "the wire theorems quantify over segments produced by the reference encoder (any header fields, any canonical "
+        "options around at most one SACK option, <= 40 option bytes); arbitrary byte strings are covered by the safety "
+        "theorem wire_total_any_bytes and by correspondence (wire op), not by a refinement statement"]
     corr.finalize_cov(chk)
 
 
